@@ -9,22 +9,32 @@ import QipVerif.Gen.ConcatSrc
 /-!
 # C12 — compiled control pulses are exactly the scheduled instruction waveforms
 
-Property theorems only.  `Concat.concatenate` models `GateCompiler._concatenate_pulses`
-(`Concat.compiledChannel` is one channel of it: loop + final padding), with the two float tolerances
-`step_size * 1.0e-6` as the rational parameter `τ` and the first-pulse test selected by `byTol`
-(`true` = shipped code `abs(last_pulse_time) < step_size*1e-6`, `false` = repaired code
-`not compiled_tlist[pulse_ind]`, fixes/C12-1.patch).
+Property theorems only.  Three layers, newest (headline) last in the file:
+
+1. **The code before the repairs** (`Concat.concatenate byTol τ`, `compiledChannel`: first-pulse test and idle-gap test relative
+   to `step_size * 1e-6`): theorems under the explicit scale hypothesis `Sep`, refuted without it by `scale_counterexample`,
+   `gap_counterexample`, `idle_only_counterexample`.
+2. **The repaired idle-gap test with gaps `0` or above the tolerance** (`concatenateG`, `ValidG`): `gap_repaired_concatenate`,
+   `closed_channel_is_schedule` — the whole statement from `Chain` alone.
+3. **The code as the working tree has it, on every schedule** (section at the end): the model `concatenateS Gen.concatSrc` is
+   driven by the description of the source that `py/props/c12.py` regenerates with `ast` (`Gen/ConcatSrc.lean`: tolerance
+   constants, comparison operators, operands, `np.linspace`/`np.arange` end points, slices, reference of `time_tol`);
+   `source_shape`, `source_constants`, `source_is_model` tie it to the fixed-shape model; `compiled_source_all_schedules`,
+   `closed_channel_every_schedule`, `discrete_channel_outside_small_gaps` hold for every channel list, any gap sizes, any
+   relative magnitudes, start times carrying the scheduler's rounding (`ChainR`); `tolerance_counterexample` and
+   `maxstart_rounding_counterexample` show that the exception set and the reference of the tolerance are what they must be.
 
 Hypotheses, all explicit:
 * `Chain 0 instrs` — the channel's instructions `(start, wave)` are sorted by start, do not overlap, start
   at or after 0, and every wave is well formed (`WaveOK`: positive duration; sampled pulses start at 0,
   increase strictly, have ≥ 1 step and `n-1` (discrete) or `n` (continuous) coefficients);
-* `Sep byTol τ true 0 instrs` — the **scale hypothesis**: every idle gap is `0` or `> step·τ`, and
+* `ChainR thr 0 instrs` — the same up to a rounding `thr` of the start times (see the last section);
+* `Sep byTol τ true 0 instrs` — (layer 1 only) the **scale hypothesis**: every idle gap is `0` or `> step·τ`, and
   (shipped test only) no later instruction is processed while less than `step·τ` of time is covered.
-Without `Sep` the statement is false: `scale_counterexample`, `gap_counterexample`.
 
 Specification objects: `Concat.specAt instrs t` (the scheduled function: the instruction's waveform inside
-its window, 0 elsewhere) and `Grid.stepAt g c t` (the step function a grid/coefficient pair denotes).
+its window, 0 elsewhere), `Grid.stepAt g c t` (the step function a grid/coefficient pair denotes), `PointExplained`
+(point-level meaning for channels of any composition), `SmallGap thr` (times inside an idle gap of length `≤ thr`).
 -/
 namespace QipVerif.C12
 open QipVerif.Concat
